@@ -69,12 +69,34 @@ func checkResetCase(c ResetCase) (v resetVerdict) {
 		v.rejected = true
 		return v
 	}
-	if x1.dead {
-		v.dead = true
+	// the twins' Reset slices differ in what their spare capacity holds
+	x2, r2, _ := run(c.Ops[c.Split:], 0, 0x5a)
+	if x1.dead || x2.dead {
+		// One of the parsers panicked or returned something the model
+		// cannot follow. If that happened behind the Reset to only one of
+		// them, or at different points, they behave differently.
+		why := func(x *parserExec) string {
+			if len(x.findings) > 0 {
+				return x.findings[len(x.findings)-1].msg
+			}
+			return "the model lost track"
+		}
+		behind := len(x1.log) > c.Split // the used parser got as far as the Reset
+		switch {
+		case x1.dead && !x2.dead && behind:
+			v.bad = true
+			v.msg = "after Reset the used parser fails where a new parser does not: " + why(x1)
+		case !x1.dead && x2.dead:
+			v.bad = true
+			v.msg = "a new parser fails where the used parser after Reset does not: " + why(x2)
+		case x1.dead && x2.dead && behind && len(r1) != len(r2):
+			v.bad = true
+			v.msg = fmt.Sprintf("after Reset the used parser and a new parser fail at different calls (%d vs %d results): %s / %s", len(r1), len(r2), why(x1), why(x2))
+		default:
+			v.dead = true
+		}
 		return v
 	}
-	// the twins' Reset slices differ in what their spare capacity holds
-	_, r2, _ := run(c.Ops[c.Split:], 0, 0x5a)
 	v.resultsAfter = len(r1)
 	v.h2Matches = countMatches(r1)
 	if !reflect.DeepEqual(r1, r2) {
@@ -105,7 +127,7 @@ func c13Opts() histOpts {
 	o.readAt, o.byteAt = 1, 1
 	o.parseNil = 1
 	o.maxOps = 16
-	o.resetNil, o.resetDat = 1, 1
+	o.resetNil, o.resetDat = 1, 2
 	o.tinyPct = 30
 	return o
 }
@@ -167,7 +189,8 @@ func TestC13(t *testing.T) {
 					st.class("config-rejected:" + kind)
 					return
 				}
-				if x.dead {
+				if len(c.Ops) == 0 {
+					// the prior history already failed: not C13's business
 					st.abort(kind)
 					return
 				}
